@@ -6,7 +6,7 @@ from typing import Any, Dict, List
 from vf.core import absval as av
 from vf.core.runner import Ctx, Tally
 from vf.core.smallscope import Fail, hkey, replay_case, run_universe
-from vf.core.universe import TypeCase, Universe, get_universe
+from vf.core.universe import TypeCase, Universe, fresh_variant, get_universe, lazy_variant
 
 LEVEL = "model_checking"
 ROUTES = ("ctor", "setattr", "inplace", "parse")
@@ -34,7 +34,7 @@ def oracle(u: Universe, tc: TypeCase, aval: Dict[str, Any], route: str, tally: T
         p = av.project_bp(u.schema, tc.msg, m)
     except Exception as e:
         return [("observe", f"{type(e).__name__}: {e}"[:200])]
-    if not av.aval_eq(p, exp):
+    if not av.aval_eq(p, exp) and route != "lazy":  # (what a lazily created parent REPORTS is C06's business)
         fails.append(("construct", f"built message reports {av.to_jsonable(p)!r}, expected {av.to_jsonable(exp)!r}"))
     try:
         b = bytes(m)
@@ -65,8 +65,18 @@ def oracle(u: Universe, tc: TypeCase, aval: Dict[str, Any], route: str, tally: T
     return fails
 
 
+FRESH_ROUTES = ("ctor_fresh", "setattr_fresh")
+
+
 def routes_fn(tc: TypeCase, aval) -> tuple:
-    return ROUTES
+    # values holding an EMPTY message in an optional / oneof / repeated / map position are also
+    # built with a freshly constructed, untouched instance in that position
+    r = ROUTES
+    if fresh_variant(tc.msg, aval):
+        r = r + FRESH_ROUTES
+    if lazy_variant(tc.msg, aval):
+        r = r + ("lazy",)  # content placed below sub-messages that are only ever read
+    return r
 
 
 def run(ctx: Ctx) -> None:
